@@ -61,7 +61,8 @@ def check(ctx):
         kinds = [k for k, _ in order]
         ok = "try" in kinds and "mutate" in kinds and kinds.index("try") < kinds.index("mutate")
         ctx.expect(ok, "C16.3", "parse-before-mutate/" + cshort(fn["path"]), fn["sp"], "the fallible parse precedes the map mutation in evaluation order", "order of effects: %s" % kinds)
-    with ctx.only(lambda k: k.startswith("key/")):
+    with ctx.only(lambda k: k.startswith("key/") or k.startswith("mapping/")):
+        # incl. the mapping function as a whole: a rule is accepted (and the map modified) only after BOTH generic lists were validated
         c07.check(ctx)
     # error kinds
     sites = c10.ctor_sites(P, "error::TypeSubstitutionErrorKind")
